@@ -999,10 +999,20 @@ def stream_probe(rep, n):
             blob = {'bytes': lambda: bytes(jpg), 'bytearray': lambda: bytearray(jpg), 'ndarray': lambda: np.frombuffer(bytes(jpg), np.uint8)}[blobkind]()
             f = Frame.from_jpg(blob, {}, h, w, fmt)
             del blob
-            img = f.image
             ref = decode(jpg, fmt)
             rep.case(('stream', blobkind, i))
             rep.traces += 1
+            try:
+                img = f.image
+            except Exception as e_:    # noqa - an observation of the code under test
+                bad += 1
+                if bad <= 3:
+                    rep.violation(f'JpgFresh: frame {i} of a stream of jpg-backed frames ({blobkind} blobs): .image raises '
+                                  f'{type(e_).__name__}: {str(e_)[:160]}',
+                                  {'mode': 'stream', 'blob': blobkind, 'frame': i, 'fmt': fmt, 'size': [h, w]},
+                                  {'family': 'stream', 'kind': 'image_raises'})
+                del f
+                continue
             if img.shape != ref.shape or not np.array_equal(img, ref):
                 bad += 1
                 if bad <= 3:
